@@ -267,7 +267,12 @@ C13V(r) ==
   LET P   == RangeOf(r.present)
       Sel == IF r.want[1] = "none" THEN P ELSE P \cap RangeOf(r.want[2])
   IN
-  IF Sel \cap RangeOf(r.poison) # {} THEN Skip("a-selected-section-is-itself-invalid")
+  \* (r.uout: outcome of the UNRESTRICTED parse of the same file; r.tr[k].u: the digest of the track in it.  Whenever the
+  \*  unrestricted parse returns a chart, every restricted parse returns one too, with the same tracks - also when a selected
+  \*  section is one the generator meant to be invalid)
+  IF r.uout = "chart" /\ ~(r.outcome = "chart" /\ \A k \in DOMAIN r.tr : r.tr[k].d = r.tr[k].u)
+  THEN <<"fail", "restricted-parse-disagrees-with-the-unrestricted-parse-of-the-same-file">>
+  ELSE IF Sel \cap RangeOf(r.poison) # {} THEN Skip("a-selected-section-is-itself-invalid")
   ELSE FirstFail(<<
     <<"unselected-section-content-must-not-matter", r.outcome = "chart">>,
     <<"exactly-the-selected-tracks-that-exist", { r.tr[k].h : k \in DOMAIN r.tr } = Sel /\ Len(r.tr) = Cardinality(Sel)>>,
